@@ -24,4 +24,8 @@ def run(prog, rep, tier):
     apply(rep, "X4", "abbreviation tables and the words on abbreviations (source evaluation against an abstract libdw)", r_dw.x4(prog), 10)
     apply(rep, "X5", "`value` of an operation yields its operands in stored order (value_producer_cat interpreted)", r_dw.x5(prog), 1)
     apply(rep, "X6", "address-keyed libdw lookups of a location operation get the pointer libdw handed out, not the address of a copy", r_dw.x6(prog), 3)
+    import r_dw as _rd17
+    f7 = _rd17.f7(prog, tier)
+    apply(rep, "F7", "every location attribute (location, data_member_location, data_location, frame_base, return_addr, segment, static_link, use_location, vtable_elem_location) in a block or section-offset form yields a location list (handle_at_dependent_value interpreted)",
+          f7 if getattr(f7, "broken", None) else ([i_ for i_ in f7[0] if i_[0] == "F7:location"], [f_ for f_ in f7[1] if f_["key"] == "F7:location"]), 1)
     maybe_mutants("C17", rep, tier)
